@@ -687,6 +687,13 @@ func bigValue(t *schema.Type, n int) *Value {
 	case schema.MapT:
 		v := &Value{T: t}
 		vv := Values(t.Elem, 1)
+		// one-byte keys: the map is filled to its whole key space (256 entries), whatever size was asked for
+		switch t.Key {
+		case "byte", "uint8":
+			n = 256
+		case "bool":
+			n = 2
+		}
 		for i := 0; i < n; i++ {
 			v.Keys = append(v.Keys, &Value{T: schema.P(t.Key), Bits: uint64(i)})
 			v.Vals = append(v.Vals, vv[i%len(vv)])
